@@ -87,6 +87,10 @@ class SendBleRawPdu(PbMessageWrapper):
         direction = packet.metadata.direction
         connection_handle = packet.metadata.connection_handle
 
+        # A raw PDU needs its link-layer header (access address and CRC)
+        if BTLE not in packet:
+            return None
+
         # Extract PDU
         if BTLE_DATA in packet:
             pdu = raw(packet[BTLE_DATA:])
